@@ -449,6 +449,14 @@ func TestC09(t *testing.T) {
 		}
 	}), c09Prop(t, r, "every_notification_code"))
 
+	// the FSM Error NOTIFICATION while plugin goroutines write UPDATEs on the same connection
+	// (slow, serialised writes): it reaches the wire whole, once, and ends the connection
+	hx.Rapid(r, t, "unexpected_while_writing", r.N(150, 2000), func(rt *rapid.T) c08Busy {
+		c := genC08Busy(rt)
+		c.Fault = "unexpected"
+		return c
+	}, c08BusyProp(t, r, "unexpected_while_writing"))
+
 	hx.Rapid(r, t, "generated", r.N(3000, 40000), func(rt *rapid.T) c09Case {
 		c := c09Case{State: pick(rt, "state", allStates...), Out: rapid.Bool().Draw(rt, "out"),
 			Stim: pick(rt, "stim", "open", "update", "notification", "notification", "keepalive", "fin", "rst")}
